@@ -40,6 +40,18 @@ impl VSource {
                 (if n as int <= old(self).all().len() { old(self).all().skip(n as int) } else { Seq::<u8>::empty() })),
     { unimplemented!() }
 
+    // `reader.stream_position()`: the current position; the stream is unchanged.  While bytes are
+    // left the position is exactly (whole length - bytes left); after a seek past the end it is
+    // only known to be at least the length.
+    #[verifier::external_body]
+    pub fn stream_position(&mut self) -> (r: std::io::Result<u64>)
+        ensures
+            final(self).all() == old(self).all(),
+            final(self).left() == old(self).left(),
+            r is Ok ==> r->Ok_0 as int >= old(self).all().len() - old(self).left().len(),
+            r is Ok && old(self).left().len() > 0 ==> r->Ok_0 as int == old(self).all().len() - old(self).left().len(),
+    { unimplemented!() }
+
     // read_exact into a fixed 16-byte array (CLSID / FMTID fields)
     #[verifier::external_body]
     pub fn read_exact16(&mut self, buf: &mut [u8; 16]) -> (r: std::io::Result<()>)
